@@ -141,6 +141,14 @@ pub fn gen_config(cli: bool, big: bool) -> Cfg {
             2 => floor + 1 + t.draw(spread * 4) as usize,
             _ => floor.max(*t.pick(&[(1usize << 20) - 1, 1 << 20, (1 << 20) + 1, 3 << 19, 2 << 20, 16 << 20])),
         };
+        // RollSum has no "window <= max" rule (BuzHash has, for its init phase): the window simply
+        // spans earlier chunks. Other tools may write such archives, bita itself does with a
+        // maximum below the default window; library level only
+        if algo == Algo::RollSum && !cli && window >= 2 && t.chance(1, 10) {
+            let max = 1 + t.draw(window as u32 - 1) as usize;
+            let min = min.min(max);
+            return Cfg { algo, window, min, max, bits, avg };
+        }
         Cfg { algo, window, min, max, bits, avg }
     })
 }
@@ -229,7 +237,7 @@ impl SourceSpec {
     }
 }
 
-pub const KINDS: [&str; 7] = ["random", "constant", "periodic", "blocks", "zero-runs", "small-alphabet", "text"];
+pub const KINDS: [&str; 8] = ["random", "constant", "periodic", "blocks", "zero-runs", "small-alphabet", "text", "mixed"];
 
 pub fn expand(spec: &SourceSpec) -> Vec<u8> {
     let mut rng = Rng::new(spec.seed);
@@ -282,6 +290,23 @@ pub fn expand(spec: &SourceSpec) -> Vec<u8> {
             let syms = [0u8, 1, 0xff];
             for b in out.iter_mut() {
                 *b = syms[rng.below(k) as usize];
+            }
+        }
+        "mixed" => {
+            // stretches of text and of random bytes, each several chunks long at best: runs of
+            // chunks that do not shrink next to chunks that do
+            let stretch = spec.param.max(16);
+            let text = expand(&SourceSpec { kind: "text", len, seed: spec.seed ^ 0x5a5a, param: 0 });
+            rng.fill(&mut out);
+            let mut i = 0;
+            let mut compressible = rng.below(2) == 0;
+            while i < len {
+                let n = (stretch / 2 + rng.below(stretch as u64 + 1) as usize).min(len - i);
+                if compressible {
+                    out[i..i + n].copy_from_slice(&text[i..i + n]);
+                }
+                compressible = !compressible;
+                i += n;
             }
         }
         _ => {
@@ -342,13 +367,15 @@ pub fn gen_len(cfg: &Cfg, max_len: usize) -> usize {
 
 pub fn gen_source_spec(len: usize) -> SourceSpec {
     t(|t| {
-        let kind = KINDS[t.weighted(&[6, 1, 2, 4, 2, 1, 3])];
+        let kind = KINDS[t.weighted(&[6, 1, 2, 4, 2, 1, 3, 2])];
         let param = match kind {
             "constant" => *t.pick(&[0usize, 1, 0x55, 0xff]),
             "periodic" => 1 + t.draw(300) as usize,
             "blocks" => *t.pick(&[64usize, 1, 7, 100, 512, 1000, 4096, 5000]),
             "zero-runs" => *t.pick(&[8usize, 64, 300, 5000]),
             "small-alphabet" => t.draw(2) as usize,
+            // (stretch length: a few bytes up to a good part of the source)
+            "mixed" => *t.pick(&[64usize, 1000, 8000, 40000]).min(&(len / 3).max(16)),
             _ => 0,
         };
         SourceSpec { kind, len, seed: t.seed64(), param }
